@@ -286,6 +286,17 @@ do i = 1, n
   end if
 end do
 k = -1""")
+    w3 = "\n    integer :: kk\n    real(kind=wp), dimension(2,3,3) :: w3"
+    add("doconc", {"v": 1}, "do concurrent (i=1:n)\n  x(i) = y(i) * 2.0_wp\nend do")
+    add("doconc", {"v": 2}, "do concurrent (i=1:n, j=1:m2)\n  x2(i,j) = y2(i,j) + i - j\nend do")
+    add("doconc", {"v": 3}, "w3 = 0.0_wp\ndo concurrent (i=1:2, j=1:3, kk=3:1:-1)\n  w3(i,j,kk) = t * i + j - kk\nend do\nr = sum(w3)",
+        locals_=w3)
+    add("doconc", {"v": 4}, "w3 = 0.0_wp\ndo concurrent (i=1:2, j=1:0, kk=1:3)\n  w3(i,1,kk) = t\nend do\nr = sum(w3)",
+        locals_=w3)
+    add("doconc", {"v": 5}, "w3 = 0.0_wp\ndo concurrent (i=1:2, j=i1:i2, kk=1:3:2)\n  w3(i,j,kk) = t + j\nend do\nr = sum(w3(:,:,1)) - sum(w3(:,:,3))",
+        locals_=w3)
+    add("doconc", {"v": 6}, "do concurrent (i=1:n, j=1:m2, i /= j)\n  x2(i,j) = 0.0_wp\nend do")
+    add("doconc", {"v": 7}, "do concurrent (i=n:1:-1)\n  x(i) = y(i)\nend do")
     add("if", {"v": 1}, """
 if (t > q) then
   r = t
